@@ -38,6 +38,8 @@ func NewClientServerStream(ctx context.Context) *ClientServerStream {
 }
 
 func (s *ClientServerStream) Close(err error) {
+	// headers that were set but never sent travel with the end of the stream, as in gRPC
+	_ = (&serverStream{s}).SendHeader(nil)
 	s.closeErr = err
 	close(s.serverSend)
 	s.closed()
